@@ -1,5 +1,6 @@
 import MirProofs.Lemmas.Segment
 import MirProofs.Lemmas.SegmentRel
+import MirProofs.Lemmas.SegmentLabels
 /-! C08 — renaming segment labels by any bijection (within each annotation independently): the frame label
     index sequences change by injective maps, which leaves pairwise, Rand and ARI unchanged, and — over the
     real-number reading of the entropy-based scores — MI, NMI, AMI, NCE over / under / F (both normalisations) and
@@ -65,5 +66,226 @@ example : Function.Injective (fun n : Nat => 7 - n % 8 + 8 * (n / 8)) ∧ Functi
   · intro a b h
     simp only at h
     omega
+
+/-! ### from label strings to index sequences
+
+  The theorems above speak about frame *index* sequences.  The code gets those from label strings by
+  `util.intervals_to_samples` (model `frameLabels`: the label of the last interval covering each frame time, `None`
+  where there is none) followed by `util.index_labels` on `str(·).lower()` (model `indexLabels`: position in
+  `sorted(set(...))`, the fill value reading `"none"`).  A renaming `ρ` of the labels of one annotation changes the
+  index sequence by an injective map — hence no score — provided the code identifies two renamed frame labels exactly
+  when it identifies the original ones (`Segment.RenamingFaithful`: case folding and the fill value are respected). -/
+
+open Segment in
+/-- the hypothesis, spelled out -/
+theorem renamingFaithful_iff (ρ : Label → Label) (l : List (Option Label)) :
+    RenamingFaithful ρ l ↔
+      ∀ a ∈ l, ∀ b ∈ l, (normLabel (a.map ρ) = normLabel (b.map ρ) ↔ normLabel a = normLabel b) := Iff.rfl
+
+/-- sampling commutes with any renaming (any lengths of `ivs`, `labs`) -/
+theorem frameLabels_rename (ρ : Segment.Label → Segment.Label) (ivs : List (ℚ × ℚ)) (labs : List Segment.Label)
+    (fs : ℚ) :
+    Segment.frameLabels ivs (labs.map ρ) fs = (Segment.frameLabels ivs labs fs).map (Option.map ρ) :=
+  Mir.Segment.frameLabels_rename ρ ivs labs fs
+
+/-- `util.index_labels` after a faithful renaming = before, up to an injective map of the indices -/
+theorem indexLabels_rename {ρ : Segment.Label → Segment.Label} {l : List (Option Segment.Label)}
+    (h : Segment.RenamingFaithful ρ l) :
+    ∃ f : Nat → Nat, Function.Injective f ∧
+      Segment.indexLabels (l.map (Option.map ρ)) = (Segment.indexLabels l).map f :=
+  Mir.Segment.indexLabels_rename h
+
+theorem frameIndices_rename {ρ : Segment.Label → Segment.Label} {ivs : List (ℚ × ℚ)} {labs : List Segment.Label}
+    {fs : ℚ} (h : Segment.RenamingFaithful ρ (Segment.frameLabels ivs labs fs)) :
+    ∃ f : Nat → Nat, Function.Injective f ∧
+      Segment.frameIndices ivs (labs.map ρ) fs = (Segment.frameIndices ivs labs fs).map f :=
+  Mir.Segment.frameIndices_rename h
+
+/-- sufficient condition on the label list itself: modulo case `ρ` is injective on the annotation's labels, and it
+    neither creates nor removes a label that reads like the fill value `"none"` -/
+theorem renamingFaithful_of_labels {ρ : Segment.Label → Segment.Label} {ivs : List (ℚ × ℚ)}
+    {labs : List Segment.Label} {fs : ℚ}
+    (hinj : ∀ a ∈ labs, ∀ b ∈ labs,
+      ((ρ a).map Char.toLower = (ρ b).map Char.toLower ↔ a.map Char.toLower = b.map Char.toLower))
+    (hnone : ∀ a ∈ labs,
+      ((ρ a).map Char.toLower = ['n', 'o', 'n', 'e'] ↔ a.map Char.toLower = ['n', 'o', 'n', 'e'])) :
+    Segment.RenamingFaithful ρ (Segment.frameLabels ivs labs fs) :=
+  Mir.Segment.renamingFaithful_of_labels hinj hnone
+
+section RenameLabels
+open Segment
+variable {ρr ρe : Label → Label} {rIvs eIvs : List (ℚ × ℚ)} {rLabs eLabs : List Label} {fs : ℚ}
+
+theorem pairwise_rename_labels (hr : RenamingFaithful ρr (frameLabels rIvs rLabs fs))
+    (he : RenamingFaithful ρe (frameLabels eIvs eLabs fs)) (beta : ℚ) :
+    pairwiseIdx (frameIndices rIvs (rLabs.map ρr) fs) (frameIndices eIvs (eLabs.map ρe) fs) beta =
+      pairwiseIdx (frameIndices rIvs rLabs fs) (frameIndices eIvs eLabs fs) beta := by
+  obtain ⟨f, hf, hfe⟩ := Mir.Segment.frameIndices_rename hr
+  obtain ⟨g, hg, hge⟩ := Mir.Segment.frameIndices_rename he
+  rw [hfe, hge]; exact pairwiseIdx_map hf hg _ _ beta
+
+theorem rand_rename_labels (hr : RenamingFaithful ρr (frameLabels rIvs rLabs fs))
+    (he : RenamingFaithful ρe (frameLabels eIvs eLabs fs)) :
+    randIdx (frameIndices rIvs (rLabs.map ρr) fs) (frameIndices eIvs (eLabs.map ρe) fs) =
+      randIdx (frameIndices rIvs rLabs fs) (frameIndices eIvs eLabs fs) := by
+  obtain ⟨f, hf, hfe⟩ := Mir.Segment.frameIndices_rename hr
+  obtain ⟨g, hg, hge⟩ := Mir.Segment.frameIndices_rename he
+  rw [hfe, hge]; exact randIdx_map hf hg _ _
+
+/-- (no length hypothesis: for index sequences of different lengths both sides take the same early return or raise
+    the same error) -/
+theorem ari_rename_labels (hr : RenamingFaithful ρr (frameLabels rIvs rLabs fs))
+    (he : RenamingFaithful ρe (frameLabels eIvs eLabs fs)) :
+    adjustedRandIdx (frameIndices rIvs (rLabs.map ρr) fs) (frameIndices eIvs (eLabs.map ρe) fs) =
+      adjustedRandIdx (frameIndices rIvs rLabs fs) (frameIndices eIvs eLabs fs) := by
+  obtain ⟨f, hf, hfe⟩ := Mir.Segment.frameIndices_rename hr
+  obtain ⟨g, hg, hge⟩ := Mir.Segment.frameIndices_rename he
+  rw [hfe, hge]; exact adjustedRandIdx_map' hf hg _ _
+
+theorem mi_rename_labels (hr : RenamingFaithful ρr (frameLabels rIvs rLabs fs))
+    (he : RenamingFaithful ρe (frameLabels eIvs eLabs fs))
+    (hl : (frameIndices rIvs rLabs fs).length = (frameIndices eIvs eLabs fs).length) :
+    mutualInfoIdx (α := ℝ) (frameIndices rIvs (rLabs.map ρr) fs) (frameIndices eIvs (eLabs.map ρe) fs) =
+      mutualInfoIdx (α := ℝ) (frameIndices rIvs rLabs fs) (frameIndices eIvs eLabs fs) := by
+  obtain ⟨f, hf, hfe⟩ := Mir.Segment.frameIndices_rename hr
+  obtain ⟨g, hg, hge⟩ := Mir.Segment.frameIndices_rename he
+  rw [hfe, hge]; exact mutualInfoIdx_real_map hf hg hl
+
+theorem nmi_rename_labels (hr : RenamingFaithful ρr (frameLabels rIvs rLabs fs))
+    (he : RenamingFaithful ρe (frameLabels eIvs eLabs fs))
+    (hl : (frameIndices rIvs rLabs fs).length = (frameIndices eIvs eLabs fs).length) :
+    nmiIdx (α := ℝ) (frameIndices rIvs (rLabs.map ρr) fs) (frameIndices eIvs (eLabs.map ρe) fs) =
+      nmiIdx (α := ℝ) (frameIndices rIvs rLabs fs) (frameIndices eIvs eLabs fs) := by
+  obtain ⟨f, hf, hfe⟩ := Mir.Segment.frameIndices_rename hr
+  obtain ⟨g, hg, hge⟩ := Mir.Segment.frameIndices_rename he
+  rw [hfe, hge]; exact nmiIdx_real_map hf hg hl
+
+theorem ami_rename_labels (hr : RenamingFaithful ρr (frameLabels rIvs rLabs fs))
+    (he : RenamingFaithful ρe (frameLabels eIvs eLabs fs))
+    (hl : (frameIndices rIvs rLabs fs).length = (frameIndices eIvs eLabs fs).length) :
+    amiIdx (α := ℝ) (frameIndices rIvs (rLabs.map ρr) fs) (frameIndices eIvs (eLabs.map ρe) fs) =
+      amiIdx (α := ℝ) (frameIndices rIvs rLabs fs) (frameIndices eIvs eLabs fs) := by
+  obtain ⟨f, hf, hfe⟩ := Mir.Segment.frameIndices_rename hr
+  obtain ⟨g, hg, hge⟩ := Mir.Segment.frameIndices_rename he
+  rw [hfe, hge]; exact amiIdx_real_map hf hg hl
+
+/-- NCE over / under / F, `marginal` = False or True, any beta -/
+theorem nce_rename_labels (hr : RenamingFaithful ρr (frameLabels rIvs rLabs fs))
+    (he : RenamingFaithful ρe (frameLabels eIvs eLabs fs))
+    (hl : (frameIndices rIvs rLabs fs).length = (frameIndices eIvs eLabs fs).length) (beta : ℝ) (marginal : Bool) :
+    nceIdx (α := ℝ) (frameIndices rIvs (rLabs.map ρr) fs) (frameIndices eIvs (eLabs.map ρe) fs) beta marginal =
+      nceIdx (α := ℝ) (frameIndices rIvs rLabs fs) (frameIndices eIvs eLabs fs) beta marginal := by
+  obtain ⟨f, hf, hfe⟩ := Mir.Segment.frameIndices_rename hr
+  obtain ⟨g, hg, hge⟩ := Mir.Segment.frameIndices_rename he
+  rw [hfe, hge]; exact nceIdx_real_map hf hg hl beta marginal
+
+theorem v_rename_labels (hr : RenamingFaithful ρr (frameLabels rIvs rLabs fs))
+    (he : RenamingFaithful ρe (frameLabels eIvs eLabs fs))
+    (hl : (frameIndices rIvs rLabs fs).length = (frameIndices eIvs eLabs fs).length) (beta : ℝ) :
+    vmeasureIdx (α := ℝ) (frameIndices rIvs (rLabs.map ρr) fs) (frameIndices eIvs (eLabs.map ρe) fs) beta =
+      vmeasureIdx (α := ℝ) (frameIndices rIvs rLabs fs) (frameIndices eIvs eLabs fs) beta :=
+  nce_rename_labels hr he hl beta true
+
+/-! #### the public functions (validation, early returns and errors included)
+
+  `segment.pairwise`, `rand_index`, `ari` are exact in the model, so the whole call is covered.  (`mutual_information`,
+  `nce`, `vmeasure` run on `Float` in the executable model; for them the statement is the ℝ-instance one above plus
+  `prologue_rename_labels`.) -/
+
+/-- validation and sampling: same outcome, the index sequences mapped by injective `f`, `g` -/
+theorem prologue_rename_labels (hr : RenamingFaithful ρr (frameLabels rIvs rLabs fs))
+    (he : RenamingFaithful ρe (frameLabels eIvs eLabs fs)) :
+    ∃ f g : Nat → Nat, Function.Injective f ∧ Function.Injective g ∧
+      prologue ⟨rIvs, rLabs.map ρr, eIvs, eLabs.map ρe⟩ fs =
+        (prologue ⟨rIvs, rLabs, eIvs, eLabs⟩ fs).map (Option.map fun p => (p.1.map f, p.2.map g)) :=
+  Mir.Segment.prologue_rename hr he
+
+theorem pairwise_rename_annot (hr : RenamingFaithful ρr (frameLabels rIvs rLabs fs))
+    (he : RenamingFaithful ρe (frameLabels eIvs eLabs fs)) (beta : ℚ) :
+    pairwise ⟨rIvs, rLabs.map ρr, eIvs, eLabs.map ρe⟩ fs beta = pairwise ⟨rIvs, rLabs, eIvs, eLabs⟩ fs beta := by
+  obtain ⟨f, g, hf, hg, hp⟩ := Mir.Segment.prologue_rename hr he
+  unfold pairwise
+  rw [hp]
+  cases prologue ⟨rIvs, rLabs, eIvs, eLabs⟩ fs with
+  | error e => rfl
+  | ok o =>
+    cases o with
+    | none => rfl
+    | some p =>
+      obtain ⟨yr, ye⟩ := p
+      simp only [Except.map, Option.map, bind, Except.bind, pairwiseIdx_map hf hg]
+
+theorem rand_rename_annot (hr : RenamingFaithful ρr (frameLabels rIvs rLabs fs))
+    (he : RenamingFaithful ρe (frameLabels eIvs eLabs fs)) :
+    randIndex ⟨rIvs, rLabs.map ρr, eIvs, eLabs.map ρe⟩ fs = randIndex ⟨rIvs, rLabs, eIvs, eLabs⟩ fs := by
+  obtain ⟨f, g, hf, hg, hp⟩ := Mir.Segment.prologue_rename hr he
+  unfold randIndex
+  rw [hp]
+  cases prologue ⟨rIvs, rLabs, eIvs, eLabs⟩ fs with
+  | error e => rfl
+  | ok o =>
+    cases o with
+    | none => rfl
+    | some p =>
+      obtain ⟨yr, ye⟩ := p
+      simp only [Except.map, Option.map, bind, Except.bind, randIdx_map hf hg]
+
+theorem ari_rename_annot (hr : RenamingFaithful ρr (frameLabels rIvs rLabs fs))
+    (he : RenamingFaithful ρe (frameLabels eIvs eLabs fs)) :
+    ari ⟨rIvs, rLabs.map ρr, eIvs, eLabs.map ρe⟩ fs = ari ⟨rIvs, rLabs, eIvs, eLabs⟩ fs := by
+  obtain ⟨f, g, hf, hg, hp⟩ := Mir.Segment.prologue_rename hr he
+  unfold ari
+  rw [hp]
+  cases prologue ⟨rIvs, rLabs, eIvs, eLabs⟩ fs with
+  | error e => rfl
+  | ok o =>
+    cases o with
+    | none => rfl
+    | some p =>
+      obtain ⟨yr, ye⟩ := p
+      simp only [Except.map, Option.map, bind, Except.bind, adjustedRandIdx_map' hf hg]
+
+end RenameLabels
+
+/-! #### non-vacuity -/
+
+/-- "a" ↦ "Z", "b" ↦ "y", identity elsewhere -/
+private def ρ₁ : Segment.Label → Segment.Label := fun s =>
+  if s = ['a'] then ['Z'] else if s = ['b'] then ['y'] else s
+
+/-- "a" ↦ "X", "b" ↦ "x": a bijection on strings that case folding does not respect -/
+private def ρ₂ : Segment.Label → Segment.Label := fun s =>
+  if s = ['a'] then ['X'] else if s = ['b'] then ['x'] else s
+
+/-- "a" ↦ "None": collides with the fill value of unlabelled frames -/
+private def ρ₃ : Segment.Label → Segment.Label := fun s => if s = ['a'] then ['N', 'o', 'n', 'e'] else s
+
+-- three intervals labelled a, a, b, one frame per second: the hypothesis holds (at frame level and via the
+-- sufficient condition on the labels), and the index sequence really changes: [0,0,1] becomes [1,1,0]
+example :
+    Segment.RenamingFaithful ρ₁ (Segment.frameLabels [(0, 1), (1, 2), (2, 3)] [['a'], ['a'], ['b']] 1) ∧
+    Segment.frameLabels [(0, 1), (1, 2), (2, 3)] [['a'], ['a'], ['b']] 1 = [some ['a'], some ['a'], some ['b']] ∧
+    Segment.frameIndices [(0, 1), (1, 2), (2, 3)] [['a'], ['a'], ['b']] 1 = [0, 0, 1] ∧
+    Segment.frameIndices [(0, 1), (1, 2), (2, 3)] ([['a'], ['a'], ['b']].map ρ₁) 1 = [1, 1, 0] := by
+  refine ⟨?_, by decide +kernel, by decide +kernel, by decide +kernel⟩
+  apply renamingFaithful_of_labels <;> decide +kernel
+
+-- why case folding is in the hypothesis: "a" ↦ "X", "b" ↦ "x" merges the two classes
+example :
+    ¬ Segment.RenamingFaithful ρ₂ (Segment.frameLabels [(0, 1), (1, 2), (2, 3)] [['a'], ['a'], ['b']] 1) ∧
+    Segment.frameIndices [(0, 1), (1, 2), (2, 3)] ([['a'], ['a'], ['b']].map ρ₂) 1 = [0, 0, 0] := by
+  refine ⟨?_, by decide +kernel⟩
+  unfold Segment.RenamingFaithful
+  decide +kernel
+
+-- why the fill value is in the hypothesis: an unlabelled frame reads "none", and so does the renamed "a"
+example :
+    Segment.frameLabels [(0, 1 / 2), (2, 3)] [['a'], ['b']] 1 = [some ['a'], none, some ['b']] ∧
+    ¬ Segment.RenamingFaithful ρ₃ (Segment.frameLabels [(0, 1 / 2), (2, 3)] [['a'], ['b']] 1) ∧
+    Segment.frameIndices [(0, 1 / 2), (2, 3)] [['a'], ['b']] 1 = [0, 2, 1] ∧
+    Segment.frameIndices [(0, 1 / 2), (2, 3)] ([['a'], ['b']].map ρ₃) 1 = [1, 1, 0] := by
+  refine ⟨by decide +kernel, ?_, by decide +kernel, by decide +kernel⟩
+  unfold Segment.RenamingFaithful
+  decide +kernel
 
 end Mir.C08.Segment
